@@ -18,6 +18,8 @@ META = {
 
 # --- additions to the level description (rules added after the first version)
 META['level_text'] += ' No return path of release_all gets round that loop (no fast path).'
+META["level_text"] += " R5: mapped_absorbed_keys and absorbing_trigger, the two fields that can be stale at rest, are read only in a reviewed set of functions; why a stale value is inert there is argued in DESIGN.md C06 (premises: R4, C03-T1, C08 rules, C01 invariants)."
+META["level_note"] = "NOT mechanised: the induction showing that stale mapped_absorbed_keys/absorbing_trigger never change a later response (paper argument in DESIGN.md C06 over decided premises). Trusted: rustc MIR, tmfacts, walker."
 # --- end additions
 
 RA = MOD + "Mapper::release_all"
@@ -131,6 +133,35 @@ def run(ctx):
                 if st["k"] == "assign" and _reads_field(st["rv"], "absorbing_trigger"):
                     pos.append(p)
     ck.ob("C06-R3", "-", "positive-control:absorbing_trigger-is-read", len(set(pos)) >= 2, detail=str(sorted(set(pos))))
+    # ---------------- R5 the two fields that CAN be stale at rest (mapped_absorbed_keys, absorbing_trigger) are read
+    # only where a stale value is inert: the reviewed reader set (argument in DESIGN.md C06: an absorbed key that is
+    # not held as input changes nothing in is_supported / release_absorbed_keys, and a pressed key is forgotten first)
+    def readers_of(field):
+        out = set()
+        for p in sorted(ctx.F.bodies):
+            if not (p.startswith(MOD) or p.startswith("<" + MOD)) or "as std::fmt::Debug>" in p or "::tests::" in p:
+                continue
+            b = ctx.body(p)
+            hit = False
+            for i in b.live_blocks():
+                blk = b.blocks[i]
+                for st in blk["stmts"]:
+                    if st["k"] == "assign" and _reads_field(st["rv"], field):
+                        hit = True
+                t = blk["term"]
+                ops = t["args"] if t["k"] == "call" else ([t["discr"]] if t["k"] == "switch" else [])
+                for o in ops:
+                    if o["k"] in ("copy", "move") and any(e.get("name") == field for e in o["place"]["p"]):
+                        hit = True
+            if hit:
+                out.add(p.split("::{closure")[0])
+        return out
+    rab = readers_of("mapped_absorbed_keys")
+    rat = readers_of("absorbing_trigger")
+    want_ab = {MOD + "newly_press", MOD + "add_new_mapping", MOD + "release_absorbed_keys"}
+    want_at = {MOD + "newly_press", MOD + "add_new_mapping", MOD + "release_absorbed_keys"}
+    ck.ob("C06-R5", "-", "mapped_absorbed_keys-is-read-only-in-the-reviewed-places", rab <= want_ab and MOD + "newly_press" in rab, detail=str(sorted(x[len(MOD):] for x in rab)))
+    ck.ob("C06-R5", "-", "absorbing_trigger-is-read-only-in-the-reviewed-places", rat <= want_at and MOD + "newly_press" in rat, detail=str(sorted(x[len(MOD):] for x in rat)))
     # ---------------- R4 forget on press
     np_ = ctx.body(NP)
     k = T("param", 2, np_.dbg.get(2, ""))
